@@ -104,27 +104,26 @@ func tryReplay(E *Engine, cfg *PropConfig, o *Obl, dir string) (string, bool, st
 	for _, w := range wants {
 		all = append(all, w.terms...)
 	}
-	if len(all) == 0 {
-		return "", false, "template has no placeholders"
-	}
-	q := o.query(false)
-	q = "(set-option :produce-models true)\n" + q + "(get-value (" + strings.Join(all, " ") + "))\n"
-	tmp, _ := os.MkdirTemp("", "vreplay")
-	defer os.RemoveAll(tmp)
-	qf := filepath.Join(tmp, "q.smt2")
-	os.WriteFile(qf, []byte(q), 0o644)
 	var vals []string
-	for _, sp := range []solverSpec{solvers[0], solvers[2]} {
-		r := runSolver(context.Background(), sp, qf, 20000)
-		if r.verdict == "sat" {
-			vals = parseGetValue(r.out, len(all))
-			if vals != nil {
-				break
+	if len(all) > 0 {
+		q := o.query(false)
+		q = "(set-option :produce-models true)\n" + q + "(get-value (" + strings.Join(all, " ") + "))\n"
+		tmp, _ := os.MkdirTemp("", "vreplay")
+		defer os.RemoveAll(tmp)
+		qf := filepath.Join(tmp, "q.smt2")
+		os.WriteFile(qf, []byte(q), 0o644)
+		for _, sp := range []solverSpec{solvers[0], solvers[2]} {
+			r := runSolver(context.Background(), sp, qf, 20000)
+			if r.verdict == "sat" {
+				vals = parseGetValue(r.out, len(all))
+				if vals != nil {
+					break
+				}
 			}
 		}
-	}
-	if vals == nil {
-		return "", false, "could not obtain values for the replay inputs"
+		if vals == nil {
+			return "", false, "could not obtain values for the replay inputs"
+		}
 	}
 	pos := 0
 	src := tmpl
